@@ -653,3 +653,54 @@ pub fn key_pool(n: usize, with_dirs: bool) -> Vec<String> {
     }
     v
 }
+
+/// Key pool with the name shapes editors and file systems meet: blanks, non-ASCII, the same file name in two
+/// directories, dots, percent signs. `flavour` 0 = plain (`key_pool`), otherwise a mix.
+pub fn rich_key_pool(n: usize, with_dirs: bool, flavour: u64, rng: &mut Rng) -> Vec<String> {
+    if flavour == 0 {
+        return key_pool(n, with_dirs);
+    }
+    let names = ["1", "2", "3", "4", "readme", "my note", "über", "c.d", "x%20y", "a+b", "日本", "UPPER", "2024-01-01", "idea"];
+    let dirs: Vec<&str> = if with_dirs { vec!["", "", "projects", "archive", "with space", "d/e"] } else { vec![""] };
+    let mut v: Vec<String> = vec![];
+    let mut guard = 0;
+    while v.len() < n && guard < 400 {
+        guard += 1;
+        let d = *rng.pick(&dirs);
+        let name = *rng.pick(&names);
+        let k = if d.is_empty() { name.to_string() } else { format!("{}/{}", d, name) };
+        if !v.contains(&k) {
+            v.push(k);
+        }
+    }
+    // the same file name in two directories (a bare link to it is then ambiguous by construction)
+    if with_dirs && n >= 3 && !v.iter().any(|k| k == "projects/readme") {
+        v[0] = "projects/readme".into();
+        if !v.iter().any(|k| k == "archive/readme") {
+            v[1] = "archive/readme".into();
+        }
+    }
+    while v.len() < n {
+        v.push(format!("n{}", v.len()));
+    }
+    v
+}
+
+/// a paragraph block of about `bytes` bytes (few blocks, long lines: size without sibling depth)
+pub fn big_paragraphs(bytes: usize, rng: &mut Rng) -> Vec<Block> {
+    let mut out = vec![];
+    let mut left = bytes;
+    while left > 0 {
+        let n = left.min(4096);
+        let mut words = vec![];
+        let mut len = 0;
+        while len < n {
+            let w = rng.pick(WORDS).to_string();
+            len += w.len() + 1;
+            words.push(Inline::Word(w));
+        }
+        out.push(Block::Para(vec![words]));
+        left = left.saturating_sub(n);
+    }
+    out
+}
